@@ -319,7 +319,7 @@ def blocked_cases(rep, quick, seed):
         # chunked time axis: refuse (or rechunk), never another value
         runs.append(attempt(da.chunk({"time": 5, "y": 2, "x": 2}), aux, "dask:time-chunked", "lazy", timechunked=True))
         # dimension orders (every operation, zonal.mean included: 82b24a3)
-        for order in (("y", "x", "time"), ("y", "time", "x")):
+        for order in (("y", "x", "time"), ("y", "time", "x"), ("x", "y", "time"), ("time", "x", "y")):      # also x stored before y
             rr = attempt(da.transpose(*order), aux, "dims:" + ",".join(order), "dimorder")
             if name == "anom_ratio":
                 rr["coords"] = base["coords"]
